@@ -278,7 +278,11 @@ class Server(object):
                 return Response(url, text=self.p_ok)
             if kind == 'with_filename':
                 self.md5_answers.append(self.p_ok)
-                return Response(url, text=self.p_ok + '  file.bin\n')
+                # the formats md5sum writes: text mode (two spaces), binary mode (' *'), and a
+                # hand-written single space
+                tail = ['  file.bin\n', ' *file.bin\n', ' file.bin'][
+                    (int(self.script.get('chunk') or 0) + len(self.requests)) % 3]
+                return Response(url, text=self.p_ok + tail)
             if kind == 'wrong':
                 self.md5_answers.append(self.p_wrong)
                 return Response(url, text=self.p_wrong)
